@@ -233,8 +233,55 @@ func applyInput(kv map[string]string) {
 // shares one default object between decodes would otherwise end the whole run with "concurrent map writes"
 var probeMu sync.Mutex
 
+const oneFlag = "-c17one"
+
+var inChild bool
+
+// runInChild: one input in a process of its own (kind=inst: what an instance is built from must not depend on anything
+// this process decoded before — and a failing input must fail again when it is replayed alone)
+func runInChild(input string) string {
+	name := filepath.Join(propDir, fmt.Sprintf("one-%d-%d.txt", os.Getpid(), atomic.AddInt64(&cliSeq, 1)))
+	if err := os.WriteFile(name, []byte(input), 0o644); err != nil {
+		return "HARNESSERR " + err.Error()
+	}
+	defer os.Remove(name)
+	exe, _ := os.Executable()
+	cmd := exec.Command(exe, oneFlag, name)
+	cmd.Dir = propDir
+	done := make(chan struct{})
+	var out []byte
+	go func() { out, _ = cmd.CombinedOutput(); close(done) }()
+	select {
+	case <-done:
+	case <-time.After(30 * time.Second):
+		_ = cmd.Process.Kill()
+		return "HANG"
+	}
+	for _, l := range strings.Split(string(out), "\n") {
+		if strings.HasPrefix(l, "OBS ") {
+			return strings.TrimPrefix(l, "OBS ")
+		}
+	}
+	return "PANIC child:" + drv.Trunc(drv.Clean(strings.ReplaceAll(string(out), " ", "_")), 200)
+}
+
+func oneMain(file string) {
+	b, err := os.ReadFile(file)
+	if err != nil {
+		fmt.Println("OBS HARNESSERR " + err.Error())
+		os.Exit(0)
+	}
+	inChild = true
+	setup()
+	fmt.Println("OBS " + drv.Clean(run(string(b))))
+	os.Exit(0)
+}
+
 func run(input string) string {
 	kv := drv.KV(input)
+	if kv["kind"] == "inst" && !inChild {
+		return runInChild(input)
+	}
 	if r := dec(kv["root"]); r == "probe" || strings.HasPrefix(r, "alt|"+probeIface.String()+"|") {
 		probeMu.Lock()
 		defer probeMu.Unlock()
